@@ -21,13 +21,19 @@ namespace __cxxabiv1 { struct __cxa_eh_globals; extern "C" __cxa_eh_globals* __c
 
 namespace sim {
 
-static const size_t STACK_SIZE = 4u << 20;
+// two stack classes: team members run only parallel-region bodies (small), MPI ranks run whole programs (large).
+// ASan clears the shadow of the target stack on every swapcontext, so small stacks matter there.
+#if defined(__SANITIZE_ADDRESS__)
+static const size_t STACK_SMALL = 256u << 10, STACK_LARGE = 8u << 20;
+#else
+static const size_t STACK_SMALL = 1u << 20, STACK_LARGE = 8u << 20;
+#endif
 static const size_t EH_SIZE = 2 * sizeof(void*);
 
 struct Fiber {
     int id = 0;
     ucontext_t uc;
-    char *stack = 0;
+    char *stack = 0; size_t stack_size = 0;
     enum { RUNNABLE, BLOCKED, DONE } state = RUNNABLE;
     entry_t fn = 0; void *arg = 0;
     Ctx *ctx = 0; Team *team = 0; int tid = 0; int single_seen = 0;
@@ -56,7 +62,7 @@ struct World {
     rng srng, frng;
     std::vector<Fiber*> fibers;        // live fibers in id order (root first)
     std::vector<Fiber*> graveyard;     // finished, stack still possibly in use
-    std::vector<char*> free_stacks;
+    std::vector<char*> free_stacks[2];
     std::vector<Ctx*> ctxs;
     Fiber *cur = 0, *root = 0;
     int next_id = 0;
@@ -77,9 +83,10 @@ struct World {
 Fiber outside_fiber;   // identity used when no world is running
 Ctx   outside_ctx;
 
-char* get_stack() {
-    if (!g.free_stacks.empty()) { char *s = g.free_stacks.back(); g.free_stacks.pop_back(); return s; }
-    void *p = mmap(0, STACK_SIZE, PROT_READ|PROT_WRITE, MAP_PRIVATE|MAP_ANONYMOUS|MAP_NORESERVE, -1, 0);
+char* get_stack(size_t size) {
+    std::vector<char*> &fs = g.free_stacks[size == STACK_LARGE];
+    if (!fs.empty()) { char *s = fs.back(); fs.pop_back(); return s; }
+    void *p = mmap(0, size, PROT_READ|PROT_WRITE, MAP_PRIVATE|MAP_ANONYMOUS|MAP_NORESERVE, -1, 0);
     if (p == MAP_FAILED) { fprintf(stderr, "amgsim: mmap stack failed\n"); abort(); }
     return (char*)p;
 }
@@ -88,7 +95,7 @@ void reap() {
     for (size_t i = 0; i < g.graveyard.size(); ) {
         Fiber *f = g.graveyard[i];
         if (f != g.cur) {
-            if (f->stack) g.free_stacks.push_back(f->stack);
+            if (f->stack) g.free_stacks[f->stack_size == STACK_LARGE].push_back(f->stack);
             delete f;
             g.graveyard[i] = g.graveyard.back(); g.graveyard.pop_back();
         } else ++i;
@@ -104,7 +111,7 @@ void switch_to(Fiber *to) {
 #if SIM_ASAN
     const void *bottom; size_t size;
     if (to == g.root) { bottom = g.root_stack_bottom; size = g.root_stack_size; }
-    else { bottom = to->stack; size = STACK_SIZE; }
+    else { bottom = to->stack; size = to->stack_size; }
     __sanitizer_start_switch_fiber(from->state == Fiber::DONE ? 0 : &from->fake_stack, bottom, size);
 #endif
     swapcontext(&from->uc, &to->uc);
@@ -250,10 +257,11 @@ Fiber* spawn(entry_t fn, void *arg, Ctx *ctx, Team *team, int tid, int starve_ke
     Fiber *f = new Fiber();
     f->id = g.next_id++;
     f->fn = fn; f->arg = arg; f->ctx = ctx; f->team = team; f->tid = tid; f->starve_key = starve_key;
-    f->stack = get_stack();
+    f->stack_size = team ? STACK_SMALL : STACK_LARGE;
+    f->stack = get_stack(f->stack_size);
     f->prio = (g.cfg.strategy == PCT) ? (long)(g.srng.next() >> 2) : 0;
     getcontext(&f->uc);
-    f->uc.uc_stack.ss_sp = f->stack; f->uc.uc_stack.ss_size = STACK_SIZE; f->uc.uc_link = 0;
+    f->uc.uc_stack.ss_sp = f->stack; f->uc.uc_stack.ss_size = f->stack_size; f->uc.uc_link = 0;
     makecontext(&f->uc, (void(*)())trampoline, 0);
     f->state = Fiber::RUNNABLE; ++g.nrunnable; ++g.nfibers;
     g.fibers.push_back(f);
@@ -333,8 +341,8 @@ RunStatus run_world(const SchedConfig &cfg, const std::function<void()> &fn) {
     struct Cleanup {
         ~Cleanup() {
             // drop every fiber but keep stacks for reuse
-            for (size_t i = 0; i < g.fibers.size(); ++i) { Fiber *f = g.fibers[i]; if (f->stack) g.free_stacks.push_back(f->stack); delete f; }
-            for (size_t i = 0; i < g.graveyard.size(); ++i) { Fiber *f = g.graveyard[i]; if (f->stack) g.free_stacks.push_back(f->stack); delete f; }
+            for (size_t i = 0; i < g.fibers.size(); ++i) { Fiber *f = g.fibers[i]; if (f->stack) g.free_stacks[f->stack_size == STACK_LARGE].push_back(f->stack); delete f; }
+            for (size_t i = 0; i < g.graveyard.size(); ++i) { Fiber *f = g.graveyard[i]; if (f->stack) g.free_stacks[f->stack_size == STACK_LARGE].push_back(f->stack); delete f; }
             g.fibers.clear(); g.graveyard.clear();
             for (size_t i = 0; i < g.ctxs.size(); ++i) delete g.ctxs[i];
             g.ctxs.clear();
